@@ -1,6 +1,7 @@
 import MdkVerif.Model.Client
 import MdkVerif.Proofs.Client
 import MdkVerif.Props.C02Win
+import MdkVerif.Props.C02Chain
 /-
   C02 — Application messages on the winning branch arrive exactly once, intact and valid.
   Row-level facts about `process_application_message` / `create_message` in the client model, the
@@ -202,5 +203,207 @@ theorem own_copy_confirmed (c : Cl) (ok : PastOK c.cfg.P c.joined c.st) (n mid t
     (hk : k ≤ c.cfg.P) (hk' : k ≤ c.cfg.L) :
     (deliver (C02Win.commits k (send c n mid tok).1) (send c n mid tok).2).2 = .app mid :=
   (C02Win.own_copy_confirmed c ok n mid tok k hk hk').1
+
+end MdkVerif.Props.C02
+
+namespace MdkVerif.Props.C02
+/-! ### history-level theorems (proved in Props/C02Chain.lean over Proofs/ChainMsg.lean and the chain theorems of C01;
+    restated here so that they are obligations of `./check C02`).  Vocabulary: see the header of Props/C02Chain.lean.
+    HYPOTHESIS of `messages_on_winning_branch_partial` / `all_members_hold_same_valid_messages`: level-by-level delivery
+    (as in C01) and every message delivered in its SLOT, i.e. while the client is in the epoch the message was created
+    in; the statement for arbitrary interleavings is `C02Chain.C02_history_full`, refuted twice below.
+    `losing_messages_never_valid` has no schedule hypothesis. -/
+open MdkVerif MdkVerif.Client MdkVerif.Fork MdkVerif.Chain MdkVerif.ChainMsg MdkVerif.Props.C01Fork
+
+/-- `ChainMsg.Uniq` is `RowsUnique` -/
+theorem uniq_iff_rowsUnique (l : List MsgRow) : Uniq l ↔ RowsUnique l := Iff.rfl
+
+/-- one message, every state: stored exactly once as sent, under the receiver's epoch; the second offer changes neither
+    the table, the group state nor the snapshots; every further one changes nothing -/
+theorem app_deliver_stored (c : Cl) (e : Ev) (mid ts tok nx : Nat)
+    (hk : e.kind = .app mid ts tok) (hroutes : routes c e = true) (hact : c.g.active = true)
+    (hopen : outerOpens (ensureSecret c.g) e = true)
+    (hle : epochOf e.path ≤ epochOf c.g.path)
+    (hpast : epochOf e.path < epochOf c.g.path → c.g.past.contains e.path = true)
+    (hf : e.sender ≠ c.id) (hc : e.cipher ∉ c.g.consumed) (hnb : NotBlocked c e.n) (hu : RowsUnique c.msgs) :
+    (deliver c e nx).2 = .app mid ∧
+    (deliver c e nx).1.msgs.filter (·.mid == mid) =
+      [{ mid := mid, author := e.sender, state := 1, epoch := epochOf c.g.path, wrapper := e.n, msgTs := ts, tok := tok }] ∧
+    RowsUnique (deliver c e nx).1.msgs ∧
+    (∀ m, m ≠ mid → findRow m (deliver c e nx).1.msgs = findRow m c.msgs) ∧
+    (deliver (deliver c e nx).1 e nx).2 = .unprocessable ∧
+    (deliver (deliver c e nx).1 e nx).1.msgs = (deliver c e nx).1.msgs ∧
+    (deliver (deliver c e nx).1 e nx).1.g = (deliver c e nx).1.g ∧
+    (deliver (deliver c e nx).1 e nx).1.mgr = (deliver c e nx).1.mgr ∧
+    (deliver (deliver (deliver c e nx).1 e nx).1 e nx).1 = (deliver (deliver c e nx).1 e nx).1 :=
+  C02Chain.app_deliver_stored c e mid ts tok nx hk hroutes hact hopen hle hpast hf hc hnb hu
+
+/-- frame of `process_message` on the message table (every state, every foreign event, every fuel) -/
+theorem deliver_msgs_frame (fuel nx : Nat) (c : Cl) (e : Ev) (hf : e.sender ≠ c.id) :
+    (∀ m row, appMid e ≠ some m → findRow m c.msgs = some row → row.epoch ≤ epochOf e.path →
+      findRow m (deliverN fuel nx c e).1.msgs = some row) ∧
+    (∀ m, appMid e ≠ some m → findRow m c.msgs = none → findRow m (deliverN fuel nx c e).1.msgs = none) ∧
+    (∀ m row, appMid e ≠ some m → findRow m (deliverN fuel nx c e).1.msgs = some row → row.state ≠ 3 →
+      findRow m c.msgs = some row) ∧
+    (RowsUnique c.msgs → RowsUnique (deliverN fuel nx c e).1.msgs) :=
+  C02Chain.deliver_msgs_frame fuel nx c e hf
+
+/-- one fork level (either role, any delivery list, stale events interleaved): rows filed under epochs up to the parent's
+    are kept unchanged, no row appears, a row changes at most to invalidated and only if filed under a later epoch -/
+theorem fork_keeps_earlier_messages (c : Cl) (T l : List Ev) (nx : Nat) (hat : AtFork c T)
+    (hl : ∀ e ∈ l, e ∈ T ∨ StaleAt c T e) :
+    (∀ m row, findRow m c.msgs = some row → row.epoch ≤ epochOf c.g.path → findRow m (run nx c l).msgs = some row) ∧
+    (∀ m, findRow m c.msgs = none → findRow m (run nx c l).msgs = none) ∧
+    (∀ x ∈ (run nx c l).msgs, ∃ y ∈ c.msgs, x = y ∨ (x = { y with state := 3 } ∧ y.epoch > epochOf c.g.path)) ∧
+    (RowsUnique c.msgs → RowsUnique (run nx c l).msgs) :=
+  C02Chain.fork_keeps_earlier_messages c T l nx hat hl
+
+/-- messages of a losing branch are never left valid on a client that ends on the winning branch: EVERY list of foreign
+    events, no schedule hypothesis -/
+theorem losing_messages_never_valid (P : Path) (w : Nat) (LM : Nat → Prop) (c : Cl) (l : List Ev) (nx : Nat)
+    (hh : HInv c) (hpref : PrefInv c) (hrows : RowInv P w LM c)
+    (hl : ∀ e ∈ l, e.sender ≠ c.id ∧ LosingEv P w LM e)
+    (hfin : (P ++ [w]) <+: (run nx c l).g.path) :
+    ∀ r ∈ (run nx c l).msgs, LM r.mid → r.state = 3 :=
+  C02Chain.losing_messages_never_valid P w LM c l nx hh hpref hrows hl hfin
+
+/-- the history theorem: chains of forks with message slots, one client -/
+theorem messages_on_winning_branch_partial (c : Cl) (Ls : List Level) (Ms : List (List Ev))
+    (sched : List (List Ev × List Ev)) (nx : Nat)
+    (hg : c.hasGroup = true) (ha : c.g.active = true) (hr : 1 ≤ c.retention) (hsec : SecretsOK c.g) (hbelow : Below c)
+    (hn : c.g.recNid = c.g.nid) (hu : RowsUnique c.msgs)
+    (hch : ChainEv c.id (core c.g) Ls) (hms : SlotsEv c.id (core c.g) Ls Ms)
+    (hfresh : ∀ e ∈ evs Ls ++ Ms.flatten, getRec c e.n = none ∧ e.cipher ∉ c.g.consumed)
+    (hw : MLevelWise (evs Ls ++ Ms.flatten) c.g.path Ls Ms sched) :
+    (run nx c (flat sched)).g.path = c.g.path ++ Ls.map (·.1.cipher) ∧ RowsUnique (run nx c (flat sched)).msgs ∧
+    (∀ k lm M, sched[k]? = some lm → Ms[k]? = some M → ∀ e ∈ lm.2, e ∈ M → ∀ mid ts tok, e.kind = .app mid ts tok →
+      (run nx c (flat sched)).msgs.filter (·.mid == mid) =
+        [{ mid := mid, author := e.sender, state := 1, epoch := epochOf c.g.path + k + 1, wrapper := e.n, msgTs := ts, tok := tok }]) ∧
+    (∀ mid, (∀ e ∈ Ms.flatten, appMid e ≠ some mid) →
+      (findRow mid c.msgs = none → (run nx c (flat sched)).msgs.filter (·.mid == mid) = []) ∧
+      (∀ row, findRow mid c.msgs = some row → row.epoch ≤ epochOf c.g.path →
+        (run nx c (flat sched)).msgs.filter (·.mid == mid) = [row])) :=
+  C02Chain.messages_on_winning_branch_partial c Ls Ms sched nx hg ha hr hsec hbelow hn hu hch hms hfresh hw
+
+/-- a message of a branch that lost, offered anywhere in such a schedule, is never stored -/
+theorem losing_branch_messages_absent (c : Cl) (Ls : List Level) (Ms : List (List Ev))
+    (sched : List (List Ev × List Ev)) (nx : Nat)
+    (hg : c.hasGroup = true) (ha : c.g.active = true) (hr : 1 ≤ c.retention) (hsec : SecretsOK c.g) (hbelow : Below c)
+    (hn : c.g.recNid = c.g.nid) (hu : RowsUnique c.msgs)
+    (hch : ChainEv c.id (core c.g) Ls) (hms : SlotsEv c.id (core c.g) Ls Ms)
+    (hfresh : ∀ e ∈ evs Ls ++ Ms.flatten, getRec c e.n = none ∧ e.cipher ∉ c.g.consumed)
+    (hw : MLevelWise (evs Ls ++ Ms.flatten) c.g.path Ls Ms sched)
+    (x : Ev) (mid ts tok : Nat) (hx : x.kind = .app mid ts tok) (hmid : ∀ e ∈ Ms.flatten, appMid e ≠ some mid)
+    (hnone : findRow mid c.msgs = none) :
+    ∀ r ∈ (run nx c (flat sched)).msgs, r.mid ≠ mid :=
+  C02Chain.losing_branch_messages_absent c Ls Ms sched nx hg ha hr hsec hbelow hn hu hch hms hfresh hw x mid ts tok hx hmid hnone
+
+/-- many clients, own schedules and slots: same path, and every message two of them were both offered is the SAME single
+    valid row at both -/
+theorem all_members_hold_same_valid_messages (ps : List C02Chain.MParty) (k0 : Core) (w : Ev) (T : List Ev) (rest : List Level)
+    (hmin : IsMin w T) (hcross : ∀ e1 ∈ T, ∀ e2 ∈ evs rest, e1.n ≠ e2.n ∧ e1.cipher ≠ e2.cipher)
+    (h : ∀ p ∈ ps, C02Chain.MPartyOK k0 w T rest p) :
+    ∀ p ∈ ps, ∀ q ∈ ps,
+      p.final.g.path = q.final.g.path ∧ core p.final.g = core q.final.g ∧
+      ∀ k lmp lmq Mp Mq, p.sched[k]? = some lmp → q.sched[k]? = some lmq → p.Ms[k]? = some Mp → q.Ms[k]? = some Mq →
+        ∀ e, e ∈ lmp.2 → e ∈ Mp → e ∈ lmq.2 → e ∈ Mq → ∀ mid ts tok, e.kind = .app mid ts tok →
+          p.final.msgs.filter (·.mid == mid) =
+            [{ mid := mid, author := e.sender, state := 1, epoch := epochOf k0.1 + k + 1, wrapper := e.n, msgTs := ts, tok := tok }] ∧
+          q.final.msgs.filter (·.mid == mid) = p.final.msgs.filter (·.mid == mid) :=
+  C02Chain.all_members_hold_same_valid_messages ps k0 w T rest hmin hcross h
+
+/-- the sender's own copy: Created by `create_message`, Processed when the event comes back; one row throughout -/
+theorem own_copy_confirmed_client (c : Cl) (n ts idn mid mts tok nx : Nat) (hg : c.hasGroup = true) (ha : c.g.active = true)
+    (hp : c.g.props = []) (hsec : SecretsOK c.g) (hu : RowsUnique c.msgs) :
+    ∃ e, (send c n ts idn mid mts tok).2 = .ev e ∧ e.kind = .app mid mts tok ∧ e.sender = c.id ∧ e.path = c.g.path ∧
+      (send c n ts idn mid mts tok).1.msgs.filter (·.mid == mid) =
+        [{ mid := mid, author := c.id, state := 0, epoch := epochOf c.g.path, wrapper := n, msgTs := mts, tok := tok }] ∧
+      (deliver (send c n ts idn mid mts tok).1 e nx).2 = .app mid ∧
+      (deliver (send c n ts idn mid mts tok).1 e nx).1.msgs.filter (·.mid == mid) =
+        [{ mid := mid, author := c.id, state := 1, epoch := epochOf c.g.path, wrapper := n, msgTs := mts, tok := tok }] :=
+  C02Chain.own_copy_confirmed c n ts idn mid mts tok nx hg ha hp hsec hu
+
+/-- a late message (retained past state, outer layer still opens it) is filed under the receiver's epoch and survives every
+    later level-by-level schedule with slots -/
+theorem late_message_kept_partial (c : Cl) (e : Ev) (mid ts tok : Nat) (Ls : List Level) (Ms : List (List Ev))
+    (sched : List (List Ev × List Ev)) (nx : Nat)
+    (hg : c.hasGroup = true) (ha : c.g.active = true) (hr : 1 ≤ c.retention) (hsec : SecretsOK c.g) (hbelow : Below c)
+    (hn : c.g.recNid = c.g.nid) (hu : RowsUnique c.msgs)
+    (hk : e.kind = .app mid ts tok) (htag : e.tag = c.g.recNid)
+    (hopen : outerOpens (ensureSecret c.g) e = true) (hle : epochOf e.path ≤ epochOf c.g.path)
+    (hpast : epochOf e.path < epochOf c.g.path → c.g.past.contains e.path = true)
+    (hf : e.sender ≠ c.id) (hc : e.cipher ∉ c.g.consumed) (hnb : getRec c e.n = none)
+    (hch : ChainEv c.id (core c.g) Ls) (hms : SlotsEv c.id (core c.g) Ls Ms)
+    (hfresh : ∀ x ∈ evs Ls ++ Ms.flatten, getRec c x.n = none ∧ x.cipher ∉ c.g.consumed)
+    (hdist : ∀ x ∈ evs Ls ++ Ms.flatten, x.n ≠ e.n ∧ x.cipher ≠ e.cipher)
+    (hmid : ∀ x ∈ Ms.flatten, appMid x ≠ some mid)
+    (hw : MLevelWise (evs Ls ++ Ms.flatten) c.g.path Ls Ms sched) :
+    (run nx c (e :: flat sched)).g.path = c.g.path ++ Ls.map (·.1.cipher) ∧
+    (run nx c (e :: flat sched)).msgs.filter (·.mid == mid) =
+      [{ mid := mid, author := e.sender, state := 1, epoch := epochOf c.g.path, wrapper := e.n, msgTs := ts, tok := tok }] ∧
+    (∀ k lm M, sched[k]? = some lm → Ms[k]? = some M → ∀ x ∈ lm.2, x ∈ M → ∀ mid' ts' tok', x.kind = .app mid' ts' tok' →
+      (run nx c (e :: flat sched)).msgs.filter (·.mid == mid') =
+        [{ mid := mid', author := x.sender, state := 1, epoch := epochOf c.g.path + k + 1, wrapper := x.n, msgTs := ts', tok := tok' }]) :=
+  C02Chain.late_message_kept_partial c e mid ts tok Ls Ms sched nx hg ha hr hsec hbelow hn hu hk htag hopen hle hpast hf hc hnb
+    hch hms hfresh hdist hmid hw
+
+/-- after a level-by-level schedule with slots over n levels, the state after level k (k + d = n) is a retained past state
+    if d ≤ max_past_epochs, and the outer layer opens its events if d ≤ 5: the two window conditions of a late message, derived -/
+theorem late_window_derived (c : Cl) (Ls : List Level) (Ms : List (List Ev))
+    (sched : List (List Ev × List Ev)) (nx : Nat)
+    (hg : c.hasGroup = true) (ha : c.g.active = true) (hr : 1 ≤ c.retention) (hsec : SecretsOK c.g) (hbelow : Below c)
+    (hn : c.g.recNid = c.g.nid) (hu : RowsUnique c.msgs)
+    (hch : ChainEv c.id (core c.g) Ls) (hms : SlotsEv c.id (core c.g) Ls Ms)
+    (hfresh : ∀ e ∈ evs Ls ++ Ms.flatten, getRec c e.n = none ∧ e.cipher ∉ c.g.consumed)
+    (hw : MLevelWise (evs Ls ++ Ms.flatten) c.g.path Ls Ms sched)
+    (k d : Nat) (hkd : k + d = Ls.length) (hd1 : 1 ≤ d) (hdm : d ≤ c.maxPast) (hd5 : d ≤ 5)
+    (x : Ev) (hx : x.path = c.g.path ++ (Ls.map (·.1.cipher)).take k) :
+    outerOpens (ensureSecret (run nx c (flat sched)).g) x = true ∧
+    (run nx c (flat sched)).g.past.contains x.path = true ∧
+    epochOf x.path + d = epochOf (run nx c (flat sched)).g.path :=
+  C02Chain.late_window_derived c Ls Ms sched nx hg ha hr hsec hbelow hn hu hch hms hfresh hw k d hkd hd1 hdm hd5 x hx
+
+/-- a message of the state after level k that arrives only after the whole schedule (n − k ≤ min(max_past_epochs, 5)) is stored
+    exactly once as sent, Processed, under the receiver's epoch; the other rows are what they were -/
+theorem late_message_in_chain_partial (c : Cl) (Ls : List Level) (Ms : List (List Ev))
+    (sched : List (List Ev × List Ev)) (nx : Nat)
+    (hg : c.hasGroup = true) (ha : c.g.active = true) (hr : 1 ≤ c.retention) (hsec : SecretsOK c.g) (hbelow : Below c)
+    (hn : c.g.recNid = c.g.nid) (hu : RowsUnique c.msgs)
+    (hch : ChainEv c.id (core c.g) Ls) (hms : SlotsEv c.id (core c.g) Ls Ms)
+    (hfresh : ∀ e ∈ evs Ls ++ Ms.flatten, getRec c e.n = none ∧ e.cipher ∉ c.g.consumed)
+    (hw : MLevelWise (evs Ls ++ Ms.flatten) c.g.path Ls Ms sched)
+    (k d : Nat) (hkd : k + d = Ls.length) (hd1 : 1 ≤ d) (hdm : d ≤ c.maxPast) (hd5 : d ≤ 5)
+    (x : Ev) (mid ts tok : Nat) (hk : x.kind = .app mid ts tok)
+    (hx : x.path = c.g.path ++ (Ls.map (·.1.cipher)).take k) (htag : x.tag = c.g.recNid) (hf : x.sender ≠ c.id)
+    (hxfresh : getRec c x.n = none ∧ x.cipher ∉ c.g.consumed)
+    (hxn : ∀ e ∈ flat sched, x.n ≠ e.n) (hxc : ∀ e ∈ evs Ls ++ Ms.flatten, e.cipher ≠ x.cipher) :
+    (deliver (run nx c (flat sched)) x nx).2 = .app mid ∧
+    (run nx c (flat sched ++ [x])).msgs.filter (·.mid == mid) =
+      [{ mid := mid, author := x.sender, state := 1, epoch := epochOf c.g.path + Ls.length, wrapper := x.n, msgTs := ts, tok := tok }] ∧
+    (∀ m, m ≠ mid → findRow m (run nx c (flat sched ++ [x])).msgs = findRow m (run nx c (flat sched)).msgs) :=
+  C02Chain.late_message_in_chain_partial c Ls Ms sched nx hg ha hr hsec hbelow hn hu hch hms hfresh hw k d hkd hd1 hdm hd5 x mid ts tok
+    hk hx htag hf hxfresh hxn hxc
+
+/-- the final state of such a schedule satisfies the per-client hypotheses again (the theorems compose) -/
+theorem chain_with_slots_restores (c : Cl) (Ls : List Level) (Ms : List (List Ev))
+    (sched : List (List Ev × List Ev)) (nx : Nat)
+    (hg : c.hasGroup = true) (ha : c.g.active = true) (hr : 1 ≤ c.retention) (hsec : SecretsOK c.g) (hbelow : Below c)
+    (hn : c.g.recNid = c.g.nid) (hu : RowsUnique c.msgs)
+    (hch : ChainEv c.id (core c.g) Ls) (hms : SlotsEv c.id (core c.g) Ls Ms)
+    (hfresh : ∀ e ∈ evs Ls ++ Ms.flatten, getRec c e.n = none ∧ e.cipher ∉ c.g.consumed)
+    (hw : MLevelWise (evs Ls ++ Ms.flatten) c.g.path Ls Ms sched) :
+    (run nx c (flat sched)).hasGroup = true ∧ (run nx c (flat sched)).g.active = true ∧ 1 ≤ (run nx c (flat sched)).retention ∧
+    SecretsOK (run nx c (flat sched)).g ∧ Below (run nx c (flat sched)) ∧
+    (run nx c (flat sched)).g.recNid = (run nx c (flat sched)).g.nid ∧ (run nx c (flat sched)).g.recNid = c.g.recNid ∧
+    (run nx c (flat sched)).id = c.id ∧ (run nx c (flat sched)).maxPast = c.maxPast ∧
+    core (run nx c (flat sched)).g = (Ls.map (·.1)).foldl coreStep (core c.g) ∧
+    (∀ n, getRec c n = none → (∀ e ∈ flat sched, n ≠ e.n) → getRec (run nx c (flat sched)) n = none) ∧
+    (∀ x ∈ (run nx c (flat sched)).g.consumed, x ∈ c.g.consumed ∨ ∃ e ∈ evs Ls ++ Ms.flatten, e.cipher = x) :=
+  C02Chain.chain_with_slots_restores c Ls Ms sched nx hg ha hr hsec hbelow hn hu hch hms hfresh hw
+
+/-- the slot hypothesis is needed: for arbitrary interleavings the statement is false of the code
+    (`handshake-before-predecessor-blocked`; `receiver-epoch-tag`) -/
+theorem history_needs_slots : ¬ C02Chain.C02_history_full := C02Chain.C02_history_full_false
+theorem history_needs_slots_epoch_tag : ¬ C02Chain.C02_history_full := C02Chain.C02_history_full_false_epoch_tag
 
 end MdkVerif.Props.C02
